@@ -83,7 +83,9 @@ ARITH_POOL = ([c_int(v) for v in (-7, -2, -1, 0, 1, 2, 3, 7, 2 ** 64, -(2 ** 63)
 
 ORDER_POOL = ([c_int(v) for v in (0, 1, -1, 2, 2 ** 53 - 1, 2 ** 53, 2 ** 53 + 1, 2 ** 63 - 1, 2 ** 63, 2 ** 63 + 1,
                                  -(2 ** 63), -(2 ** 63) - 1, 2 ** 64 - 1, 2 ** 64, 10 ** 30, -(10 ** 30))] +
-              [c_rat(1, 3), c_rat(1, 2), c_rat(2, 1), c_rat(-1, 2), c_rat(2 ** 53 + 1, 2), c_rat(10 ** 30, 3)] +
+              [c_rat(1, 3), c_rat(1, 2), c_rat(2, 1), c_rat(-1, 2), c_rat(2 ** 53 + 1, 2), c_rat(10 ** 30, 3),
+               c_rat(0, 1), c_rat(-(2 ** 63), 1)] +          # zero and a word boundary AT the rational level
+              
               [c_float(x) for x in (0.0, -0.0, 0.5, 0.3333333333333333, 1.0, 2.0, -0.5, 2.0 ** 53, 2.0 ** 63, -(2.0 ** 63),
                                     2.0 ** 64, 1e30, float("inf"), float("-inf"), float("nan"))] +
               [c_complex(1.0, 0.0), c_complex(1.0, 2.0), c_complex(0.0, 1.0)])
